@@ -1168,7 +1168,7 @@ pub fn replay(scenario: &Json) -> Result<Option<Violation>, String> {
 }
 
 pub fn run_batch(tier: &str, root: u64, workers: usize, scale: u64) -> i32 {
-    let (worlds, max_plans) = if tier == "thorough" { (10_000 * scale, 60usize) } else { (300 * scale, 24usize) };
+    let (worlds, max_plans) = if tier == "thorough" { (5_000 * scale, 60usize) } else { (300 * scale, 24usize) };
     let worlds = crate::util::runs_override(worlds);
     let start = Instant::now();
     let results = crate::util::run_pool(worlds, workers, |i| {
